@@ -120,6 +120,8 @@ def run(prog, rep, tier='quick', config='default'):
         else:
             rep.ok('R16c', 'symbol-key-unmodified', where=x.where(), fn=parse.name, detail='the map key is the given symbol (trimmed only)')
 
+    r16de(prog, rep, parse)
+
     # ------------------------------------------------------------------ R16b
     ALLOWED = {'get', 'contains_key', 'new', 'with_capacity', 'drop', 'clone', 'default', 'insert'}
     n_uses = 0
@@ -185,3 +187,62 @@ def run(prog, rep, tier='quick', config='default'):
                           detail='the opening position handed to the bookkeeping of a security is not looked up under that security\'s own key '
                                  '(key and rows from the same map entry: %s, status from this look-up: %s)' % (same_elem, feeds))
     rep.extra['opening_map_use_sites'] = n_uses
+
+
+def r16de(prog, rep, parse):
+    # ------------------------------------------------------------------ R16d: the looked-up position reaches the ledger seed as it is
+    OPT_PSS = re.compile(r'std::option::Option<(std::rc::Rc<|&)?(acb::)?portfolio::(model::txdelta::|bookkeeping::\w+::)?PortfolioSecurityStatus')
+    DROP = {'filter', 'and_then', 'take_if', 'xor', 'or', 'or_else', 'zip', 'take', 'replace', 'unwrap_or', 'unwrap_or_else', 'unwrap_or_default',
+            'is_some_and', 'map_or', 'map_or_else', 'then', 'then_some', 'insert', 'get_or_insert', 'get_or_insert_with'}
+    n = 0
+    for fn in prog.product_fns():
+        if mir.is_testsupport(fn.name):
+            continue
+        for c in fn.calls:
+            g = prog.resolve(c.callee, fn.crate) or prog.resolve(c.decl, fn.crate)
+            if g is None or not (g.name.endswith('delta_list::txs_to_delta_list') or
+                                 (g.name.startswith('portfolio::bookkeeping::portfolio_status::') and g.name.endswith('::new'))):
+                continue
+            for ai, a in enumerate(c.args):
+                if not is_place(a) or not OPT_PSS.search(fn.ty.get(op_local(a), '')):
+                    continue
+                n += 1
+                o = mir.provenance(fn, a, follow_all_call_args=True)
+                bad = [x for x in o.calls if x.short in DROP and x.decl.startswith('std::')]
+                k = '%s|opening-position-handed-on-unchanged|%s' % (fn.name.split('::{')[0], short(g.name))
+                if bad:
+                    rep.violation('R16d', k, where=bad[0].where(), fn=fn.name,
+                                  detail='the opening position passes through Option::%s on its way to %s: it can be dropped or replaced depending on the '
+                                         'transactions (e.g. when only other affiliates trade the security), where a prepended purchase would still count'
+                                         % (bad[0].short, short(g.name)))
+                else:
+                    rep.ok('R16d', k, where=c.where(), fn=fn.name,
+                           detail='the Option handed to %s is the looked-up position (calls on the way: %s)' % (short(g.name), sorted({x.short for x in o.calls})[:8]))
+    if n < 2:
+        rep.violation('R16d', 'anchor-lost:opening-position-hand-over', detail='anchor lost: expected the opening position to be handed to txs_to_delta_list '
+                      'and to the status tracker (found %d hand-over sites)' % n)
+
+    # ------------------------------------------------------------------ R16e: exactly three fields
+    bounded = [c for c in parse.calls if re.search(r'str::<impl str>::(splitn|rsplitn|split_once|rsplit_once|split_terminator|rsplit)$|core::str::<impl str>::(splitn|rsplitn|split_once|rsplit_once)$', c.callee) or
+               (c.short in ('splitn', 'rsplitn', 'split_once', 'rsplit_once') and 'str' in c.callee)]
+    splits = [c for c in parse.calls if c.short == 'split' and 'str' in c.callee]
+    count_checked = False
+    for i, b in parse.blocks.items():
+        t = b['term']
+        if not t or t['t'] != 'switch':
+            continue
+        d = mir.provenance(parse, t['discr'], follow_all_call_args=True)
+        if any(x.short in ('len', 'count') for x in d.calls) and any(op in ('Eq', 'Ne') for op, _ in d.binops) and \
+                any(re.search(r'(^|\D)3(_usize)?$', str(cv[1])) for cv in d.consts):
+            count_checked = True
+    if bounded:
+        rep.violation('R16e', 'specification-has-exactly-three-fields', where=bounded[0].where(), fn=parse.name,
+                      detail='the specification is cut with %s: a string with more than three fields is no longer rejected but folded into the symbol '
+                             '(FOO:20:1000:00 becomes 1000 shares of "FOO:20")' % short(bounded[0].callee))
+    elif splits and count_checked:
+        rep.ok('R16e', 'specification-has-exactly-three-fields', where=splits[0].where(), fn=parse.name,
+               detail='split on the separator without a bound, and the number of fields is compared with 3')
+    else:
+        rep.violation('R16e', 'specification-has-exactly-three-fields', fn=parse.name, where='%s:%d' % (parse.file, parse.line),
+                      detail='no unbounded split followed by a comparison of the field count with 3 was found (split sites: %d, count compared: %s)'
+                             % (len(splits), count_checked))
